@@ -42,17 +42,12 @@ theorem FStack.top_push (s : FStack) (decls : List (Nat × Nat)) :
   unfold FStack.push pushTop
   cases decls <;> simp [FStack.top]
 
-/-- Name checks of one element against the top frame (what `StartTagOpen` and `Attribute`
-    need): no unprefixed no-namespace name under a default namespace, `element_fullname` and
-    every `attribute_fullname` succeed. -/
+/-- Name checks of one element against the top frame (what `element_fullname` /
+    `attribute_fullname` need). -/
 def elementOk (env : Env) (top : List (Nat × Nat)) (t : Tree) (name : Nat) : Bool :=
   !(env.nsOfName name == Env.noNamespace && FStack.hasDefaultNamespace [top]) &&
-  exceptIsOk (FStack.elementFullname env [top] name) &&
+    exceptIsOk (FStack.elementFullname env [top] name) &&
     (t.attrs.map (·.1)).all (fun n => exceptIsOk (FStack.attributeFullname env [top] n))
-
-theorem hasDefaultNamespace_top (s : FStack) :
-    s.hasDefaultNamespace = FStack.hasDefaultNamespace [s.top] := by
-  simp [FStack.hasDefaultNamespace, FStack.top]
 
 /-- `to_string` finds every prefix, as a recursive function of the top frame. -/
 def wr (env : Env) (top : List (Nat × Nat)) : Tree → Bool
@@ -66,6 +61,10 @@ where
   wrList (env : Env) (top : List (Nat × Nat)) : List Tree → Bool
     | [] => true
     | k :: ks => wr env top k && wrList env top ks
+
+theorem hasDefaultNamespace_top (s : FStack) :
+    s.hasDefaultNamespace = FStack.hasDefaultNamespace [s.top] := by
+  simp [FStack.hasDefaultNamespace, FStack.top]
 
 theorem elementFullname_top (env : Env) (s : FStack) (name : Nat) :
     FStack.elementFullname env s name = FStack.elementFullname env [s.top] name := by
@@ -86,17 +85,16 @@ theorem writable_fold (env : Env) : ∀ (t : Tree) (pre : Path) (st : WritableSt
       simp only [Value.isNormal, Value.category, beq_self_eq_true, ↓reduceIte]
       rw [show writableStep env st (.start pre (.node (.element name) ks)) =
           { fs := st.fs.push (Tree.node (.element name) ks).nsDecls,
-            ok := st.ok &&
-              !(env.nsOfName name == Env.noNamespace &&
+            ok := st.ok && (!(env.nsOfName name == Env.noNamespace &&
                 (st.fs.push (Tree.node (.element name) ks).nsDecls).hasDefaultNamespace) &&
-              exceptIsOk ((st.fs.push (Tree.node (.element name) ks).nsDecls).elementFullname env name) &&
+              exceptIsOk ((st.fs.push (Tree.node (.element name) ks).nsDecls).elementFullname env name)) &&
               ((Tree.node (.element name) ks).attrs.map (·.1)).all (fun n =>
                 exceptIsOk ((st.fs.push (Tree.node (.element name) ks).nsDecls).attributeFullname env n)) } from rfl]
       rw [writable_fold_list env ks pre 0]
       simp only [writableStep, Tree.value, Value.isElement, ↓reduceIte, hasNamespaceDeclarations,
         FStack.pop_push, FStack.top_push, wr, elementOk]
       congr 1
-      rw [elementFullname_top, hasDefaultNamespace_top, FStack.top_push]
+      rw [elementFullname_top, FStack.top_push, hasDefaultNamespace_top, FStack.top_push]
       simp only [attributeFullname_top env (st.fs.push _), FStack.top_push, Bool.and_assoc]
     | document => simpa [Value.isNormal, Value.category, writableStep, Tree.value, Value.isElement, wr] using writable_fold_list env ks pre 0 st
     | text s => simpa [Value.isNormal, Value.category, writableStep, Tree.value, Value.isElement, wr] using writable_fold_list env ks pre 0 st
